@@ -338,6 +338,8 @@ def vt_cases(draw):
 
 def check_vt(case, col=None):
     path = os.path.join(os.environ.get('VERIF_REPO', '/repo'), 'tests', case['file'])
+    if not os.path.exists(path):
+        path = os.path.join('/repo', 'tests', case['file'])       # recorded sessions are test data, not code under test
     with open(path, 'rb') as f:
         raw = f.read()[case['start']:case['start'] + case['length']]
     if not raw:
